@@ -9,6 +9,7 @@ from ..engine.mutate import Mutant, Variant, in_function, replace_once
 from ..engine.runner import Rule
 from ..engine.source import AnalysisError
 from .C13 import rule_stat_shortcut
+from . import C03
 from . import shared
 from .common import callee_name, calls_in
 
@@ -122,6 +123,7 @@ def rule_no_phantom_changes(ctx):
 
 
 RULES = [
+    Rule("R-C04-7", "the stored input digest covers the inputs the step has now, compared with what it was given (no phantom input makes the next no-op build rerun it)", C03.rule_after_baseline, min_instances=10),
     Rule("R-C04-1", "only PENDING is dispatched; a stored hash means check, not run", rule_only_pending_dispatched, min_instances=6),
     Rule("R-C04-2", "unchanged hashes are not applied", rule_unchanged_not_applied, min_instances=2),
     Rule("R-C04-3", "who may invalidate", rule_who_may_invalidate, min_instances=12),
